@@ -3,7 +3,8 @@
    rt <conv> <value>                                 -> to_url, unquote, in_lang, to_python in one line
    unq <text>                                        -> unquoted text
    build <cfg> <rules> <adapter> <ep> <vals> <meth|~> <force_external>  -> U url | NONE | VALUEERROR | UNSUPPORTED
-   b2m <cfg> <rules> <adapter> <ep> <vals> <meth>   -> outcome of matching the built URL *)
+   b2m <cfg> <rules> <adapter> <ep> <vals> <meth>   -> outcome of matching the built URL
+   buildq <sort> <cfg> <rules> <adapter> <ep> <vals> <extras> <meth|~> <force_external>  -> build with query extras *)
 let sp c s = String.split_on_char c s
 let str s = nlist_of_csv s
 let opt f s = if s = "~" then None else Some (f s)
@@ -32,8 +33,34 @@ let rule s = match sp ';' s with
         r_branch = b br; r_methods = opt (lst '|' str) meths; r_strict_opt = opt b st; r_merge_opt = opt b mg;
         r_websocket = b ws; r_alias = b al; r_defaults = lst '|' kv defs }
   | _ -> failwith ("rule " ^ s)
+(* a rule wrapped in factories: <rule>;<op>!<op>..  innermost first.
+   M<seg^seg>  Submount     D<seg>  Subdomain     E<n>  EndpointPrefix (endpoint + n)     T<k=v&k=v>  RuleTemplate context *)
+exception Outside
+let apply_op r op =
+  let arg = String.sub op 1 (String.length op - 1) in
+  match op.[0] with
+  | 'M' -> submount (lst '^' seg arg) r
+  | 'D' -> with_dom (seg arg) r
+  | 'E' -> with_endpoint (fun e -> n_of_int (int_of_n e + int_of_string arg)) r
+  | 'T' -> (match template (lst '&' (fun kv -> match sp '=' kv with [k; v] -> (str k, str v) | _ -> failwith "ctx") arg) r with
+            | Some r' -> r' | None -> raise Outside)
+  | _ -> failwith ("op " ^ op)
+let frule s =
+  match sp ';' s with
+  | [_; _; _; _; _; _; _; _; _; _; _; _] -> rule s
+  | l when List.length l = 13 ->
+      let ops = List.nth l 12 in
+      let base = rule (String.concat ";" (List.filteri (fun i _ -> i < 12) l)) in
+      List.fold_left apply_op base (sp '!' ops)
+  | _ -> failwith ("frule " ^ s)
+let xval s = match s.[0] with
+  | 'N' -> XNone
+  | 'L' -> XList (lst '/' (fun e -> if e = "N" then None else Some (value e)) (tl s))
+  | _ -> XOne (value s)
+let xkv s = match sp '=' s with [k; v] -> (str k, xval v) | _ -> failwith ("xkv " ^ s)
+let sorting = function "0" -> SortOff | "1" -> SortByKey | _ -> SortNatural
 let rmap cfg rules =
-  { m_rules = lst '+' rule rules; m_strict = (cfg.[0] = '1'); m_merge = (cfg.[1] = '1');
+  { m_rules = lst '+' frule rules; m_strict = (cfg.[0] = '1'); m_merge = (cfg.[1] = '1');
     m_redirect_defaults = (cfg.[2] = '1'); m_host_matching = (cfg.[3] = '1') }
 let adapter s = match sp '|' s with
   | [sch; srv; scr; sub; q] -> { a_scheme = str sch; a_server = str srv; a_script = str scr; a_subdomain = opt str sub; a_query = str q }
@@ -51,7 +78,7 @@ let show_outcome = function
   | Raised u -> if u then "UNSUPPORTED" else "EXN ValueError"
 let bres f = function BOk x -> f x | BValueError -> "VALUEERROR" | BUnsupported -> "UNSUPPORTED"
 let () = iter_lines (fun line ->
-  match fields line with
+  try match fields line with
   | ["tourl"; c; v] -> bres (fun u -> "U " ^ csv_of_nlist u) (to_url (conv c) (value v))
   | ["rt"; c; v] ->
       let c = conv c in
@@ -62,7 +89,11 @@ let () = iter_lines (fun line ->
   | ["build"; cfg; rules; a; ep; vals; meth; fe] ->
       bres (function Some u -> "U " ^ csv_of_nlist u | None -> "NONE")
         (adapter_build (rmap cfg rules) (adapter a) (ni ep) (lst '|' kv vals) (opt str meth) (b fe))
+  | ["buildq"; srt; cfg; rules; a; ep; vals; extras; meth; fe] ->
+      bres (function Some u -> "U " ^ csv_of_nlist u | None -> "NONE")
+        (adapter_build_q (sorting srt) (rmap cfg rules) (adapter a) (ni ep) (lst '|' kv vals) (lst '|' xkv extras) (opt str meth) (b fe))
   | ["b2m"; cfg; rules; a; ep; vals; meth] ->
       bres (function Some o -> show_outcome o | None -> "NONE")
         (build_then_match no_hooks (rmap cfg rules) (adapter a) (ni ep) (lst '|' kv vals) (str meth))
-  | _ -> "bad-command")
+  | _ -> "bad-command"
+  with Outside -> "UNSUPPORTED")
